@@ -170,3 +170,120 @@ def run(ctx, config="all"):
     if config.startswith("all"):
         rep.floor("codec_pairs", n, 12)
     return rep
+
+
+# ---------------------------------------------------------------------------------------------------------------
+ENC_COMPACT = "<crate::support::scale::CompactRefUint<'_, BITS, LIMBS> as parity_scale_codec::codec::Encode>::encode_to"
+DEC_COMPACT = "<crate::support::scale::CompactUint<BITS, LIMBS> as parity_scale_codec::codec::Decode>::decode"
+
+
+def compact_modes(ctx, config="all"):
+    """R-CODEC/compact-modes: the SCALE compact decoder accepts, in every mode, at least the values the encoder emits
+    in that mode (writer's and reader's mode tables agree).
+
+    Encoder: the interval of bit_len() in each arm of the mode match (arms identified by what they call: to::<u8>,
+    to::<u16>, to::<u32>, byte_len) gives the value range emitted per mode.  Decoder: the interval of the decoded
+    integer at each `Uint::try_from(x)` (arms identified by x's type and whether it was shifted right by the two
+    mode bits) is the accepted range.  Both from the interval interpretation of the bodies; no input is run."""
+    from . import total_rule
+    rep = Report("R-CODEC/compact-modes", "SCALE compact: for every mode (single byte, two byte, four byte, big-integer "
+                 "with 4 / 8 / 16 payload bytes) the value range the encoder emits in that mode is contained in the range "
+                 "the decoder accepts in that mode (intervals of bit_len per encoder arm vs intervals of the decoded "
+                 "integer per decoder arm)")
+    prog = ctx.prog(config)
+    if ENC_COMPACT not in prog.bodies or DEC_COMPACT not in prog.bodies:
+        rep.violation("missing", "src/support/scale.rs", "compact encoder / decoder not found (feature parity-scale-codec off?)")
+        return rep
+    T = total_rule.totality(ctx, config)
+    cfgs = [(256, 4)] + ([c for c in ctx.cfgs() if c in ((536, 9), (129, 3), (64, 1), (60, 1))] if ctx.tier == "thorough" else [])
+    n = 0
+    for cfg in cfgs:
+        bits = cfg[0]
+        vmax = (1 << bits) - 1
+        # ---- encoder
+        a = T.ai(ENC_COMPACT, cfg)
+        v = a.v
+        bl = [t["dest"]["l"] for _bi, t in v.calls() if (ir.callee_name(t["fn"]) or "").endswith(">::bit_len")]
+        where_e = "%s:%s" % (v.body["file"], v.body["line"])
+        if len(bl) != 1:
+            rep.violation("encoder|bit_len", where_e, "the compact encoder no longer selects its mode by one bit_len() call "
+                          "(%d found): rule cannot be applied" % len(bl))
+            return rep
+        enc = {}
+        for bi, t in v.calls():
+            nm = ir.callee_name(t["fn"]) or ""
+            mode = None
+            if nm.endswith("::to") and "UintTryTo" not in nm:
+                targs = [x.get("n") for x in t["fn"].get("args", []) if isinstance(x, dict) and x.get("k") == "prim"]
+                mode = {"u8": "single-byte", "u16": "two-byte", "u32": "four-byte"}.get(targs[-1] if targs else None)
+            elif nm.endswith(">::byte_len"):
+                mode = "big"
+            if mode is None:
+                continue
+            st = a.state_before_term(bi)
+            if st is None:
+                continue
+            iv = a.get(st, bl[0])
+            if iv is None:
+                continue
+            lo = 0 if iv[0] == 0 else 1 << (iv[0] - 1)
+            hi = min(vmax, (1 << iv[1]) - 1)
+            if lo <= hi:
+                enc[mode] = (lo, hi) if mode not in enc else (min(lo, enc[mode][0]), max(hi, enc[mode][1]))
+        if "big" in enc:
+            blo, bhi = enc.pop("big")
+            for nb in (4, 8, 16):
+                lo, hi = max(blo, 1 << (8 * (nb - 1))), min(bhi, (1 << (8 * nb)) - 1)
+                if lo <= hi:
+                    enc["big-%d" % nb] = (lo, hi)
+        # ---- decoder
+        d = T.ai(DEC_COMPACT, cfg)
+        dv = d.v
+        dec = {}
+        for bi, t in dv.calls():
+            nm = ir.callee_name(t["fn"]) or ""
+            if not (nm.endswith("::try_from") and "TryFrom<u" in nm and "for crate::Uint<BITS, LIMBS>>" in nm):
+                continue
+            ty = nm.split("TryFrom<")[1].split(">")[0]
+            st = d.state_before_term(bi)
+            if st is None:
+                continue
+            iv, _k = d.eval_operand(st, t["args"][0])
+            if iv is None:
+                continue
+            # shifted right by the mode bits?
+            shifted, seen, stk = False, set(), [t["args"][0]]
+            while stk:
+                o = stk.pop()
+                if o.get("o") not in ("copy", "move") or o["l"] in seen:
+                    continue
+                seen.add(o["l"])
+                for _b, si, x in dv.defs.get(o["l"], []):
+                    if si == "term":
+                        continue
+                    rv = x.get("rv") or {}
+                    if rv.get("r") == "bin" and rv["op"] in ("Shr", "ShrUnchecked"):
+                        shifted = True
+                    stk.extend(ir.operands_of_rvalue(rv) if rv else [])
+            mode = {("u8", True): "single-byte", ("u8", False): "single-byte", ("u16", True): "two-byte",
+                    ("u32", True): "four-byte", ("u32", False): "big-4", ("u64", False): "big-8",
+                    ("u128", False): "big-16"}.get((ty, shifted))
+            if mode:
+                dec[mode] = iv if mode not in dec else (min(iv[0], dec[mode][0]), max(iv[1], dec[mode][1]))
+        where_d = "%s:%s" % (dv.body["file"], dv.body["line"])
+        for mode, (lo, hi) in sorted(enc.items()):
+            n += 1
+            key = "%s|(%d,%d)" % (mode, cfg[0], cfg[1])
+            acc = dec.get(mode)
+            if acc is None:
+                rep.violation(key, where_d, "the encoder emits values [%d, %d] in %s mode but the decoder has no arm that "
+                              "accepts that mode" % (lo, hi, mode))
+            elif acc[0] <= lo and hi <= acc[1]:
+                rep.ok(key, where_d, "encoder emits [%d, %d], decoder accepts [%d, %d]" % (lo, hi, acc[0], acc[1]))
+            else:
+                miss = ("%d" % lo) if lo < acc[0] else ("%d" % hi)
+                rep.violation(key, where_d, "in %s mode the encoder emits [%d, %d] but the decoder accepts only [%d, %d]: "
+                              "e.g. %s is encoded and then rejected" % (mode, lo, hi, acc[0], acc[1], miss))
+    rep.analysed = {"build_config": config, "configurations": ["%d,%d" % c for c in cfgs], "mode_comparisons": n}
+    rep.floor("mode_comparisons", n, 6)
+    return rep
